@@ -387,7 +387,7 @@ pub fn run(ctx: &Ctx) -> Outcome {
     }
     let modes = [UNIFORM, IDENTITY, CONSTANT, SAMEBIN, SPLITTING, MIXED, HIGHBITS];
     // ---- A and B
-    let n_ab = ctx.q(400u64, 4000);
+    let n_ab = ctx.q(400u64, 40_000);
     for i in 0..n_ab {
         if i % ctx.shards != ctx.shard {
             continue;
